@@ -50,10 +50,13 @@ func main() {
 		signalCh = make(chan os.Signal, 1)
 	)
 
+	// first of all: a signal that arrives while the options are still being
+	// read waits in the buffered channel and stops the collector once it is up
+	signal.Notify(signalCh, syscall.SIGINT, syscall.SIGTERM)
+
 	opts = GetOptions()
 	runtime.GOMAXPROCS(opts.getCPU())
 
-	signal.Notify(signalCh, syscall.SIGINT, syscall.SIGTERM)
 	logger = opts.Logger
 
 	if !opts.ProducerEnabled {
